@@ -2,6 +2,7 @@ import DryocVerif.Model.Curve
 import DryocVerif.Model.CurveInst
 import DryocVerif.Spec.Blake2b
 import DryocVerif.Proofs.Curve
+import DryocVerif.Proofs.GenCurve
 /-
 C12 — `crypto_kdf_derive_from_key` (/repo/src/classic/crypto_kdf.rs).
 
@@ -102,5 +103,17 @@ example : Spec.Blake2b.paramBlock 32 32 (toLE 8 1 ++ zeros 8)
       ([0x45, 0x78, 0x61, 0x6d, 0x70, 0x6c, 0x65, 0x73] ++ zeros 8) =
     [32, 32, 1, 1] ++ zeros 28 ++ (1 :: zeros 15) ++
       ([0x45, 0x78, 0x61, 0x6d, 0x70, 0x6c, 0x65, 0x73] ++ zeros 8) := by decide
+
+/-- tie to the source: the BLAKE2b salt / personalisation blocks that `crypto_kdf_derive_from_key` assembles, and its length
+bounds, as translated by `tools/rs2lean.py` (regenerated on every run), are the ones of the model -/
+theorem translated_kdf_params (P : Model.Curve.Prims) (len id : Nat) (ctx key : Bytes) (hc : ctx.length = 8) :
+    Model.Curve.kdfDerive P len id ctx key =
+      if len < Gen.Curve.KDF_BYTES_MIN ∨ Gen.Curve.KDF_BYTES_MAX < len then .err
+      else .ok (P.blake2b len key (Gen.Curve.kdf_params id ctx).2 (Gen.Curve.kdf_params id ctx).1 []) :=
+  Proofs.GenCurve.kdfDerive_eq_gen P len id ctx key hc
+
+theorem translated_kdf_params_value (id : Nat) (ctx : Bytes) (hc : ctx.length = 8) :
+    Gen.Curve.kdf_params id ctx = (ctx ++ zeros 8, toLE 8 id ++ zeros 8) :=
+  Proofs.GenCurve.kdf_params_eq_model' id ctx hc
 
 end DryocVerif.Properties.C12
